@@ -36,7 +36,8 @@ func (a Arch) String() string {
 	 * lone name is gnu-linux-<cpu>, and OS-CPU leaves the ABI at `any` (or
 	 * unset, when unmarshalled into a zero Arch). A CPU with a `-` in it
 	 * only survives in the full three part form. */
-	if a.ABI == a.OS && a.OS == a.CPU && (a.CPU == "any" || a.CPU == "all") {
+	if a.ABI == a.OS && a.OS == a.CPU && (a.CPU == "any" || a.CPU == "all" || a.CPU == "") {
+		/* (the zero Arch has no name at all) */
 		return a.CPU
 	}
 	if !strings.Contains(a.CPU, "-") {
